@@ -132,7 +132,7 @@ generated by `Rom.layout` reach an aligned entry word carrying the length and th
 descriptor if it is present, and are refused if it is absent.
 
 From any idle state, for every `tx.ready` pattern `rs`, a request at an in-order offset
-`p ≤ min wLength |d|` is answered, after at most four quiet cycles, with the abstract transmitter's
+`p ≤ min wLength |d|` is answered, after one to four quiet cycles, with the abstract transmitter's
 trace of `specResponse`: the chunk `d[p .. p+mps) ∩ [0, wLength)`, or a one-cycle ZLP at the end of
 the data, or — descriptor absent — a one-cycle STALL and never `valid`. -/
 theorem block_packet_exact (coll : Collection) (mps : Nat) (s0 : Block.State)
@@ -143,7 +143,7 @@ theorem block_packet_exact (coll : Collection) (mps : Nat) (s0 : Block.State)
     (hty : ty < 256) (hidx : idx < 256) (hl : l < 65536)
     (h0 : s0.fsm = .idle)
     (hp : ∀ d, descrBytes coll ty idx = some d → p ≤ min l d.length) :
-    ∃ lat, lat ≤ 4 ∧
+    ∃ lat, 1 ≤ lat ∧ lat ≤ 4 ∧
       Block.run (blockOf coll mps) s0 (Block.reqInputs (ty * 256 + idx) l p rs)
         = respTrace lat (specResponse (descrBytes coll ty idx) l mps p) rs := by
   have hlk : lookupOk (Rom.layout coll) coll ty idx = true := lookupOk_layout coll hwf ty idx hidx
@@ -162,7 +162,7 @@ theorem block_packet_exact (coll : Collection) (mps : Nat) (s0 : Block.State)
     obtain ⟨w, hpres⟩ := Block.present_of_lookupOk (blockOf coll mps) coll ty idx d hlk hf
     simp only [Option.map_some, specResponse]
     by_cases hlt : p < min l d.bytes.length
-    · refine ⟨4, by omega, ?_⟩
+    · refine ⟨4, by omega, by omega, ?_⟩
       rw [if_pos hlt]
       exact Block.block_data (blockOf coll mps) s0 ty idx l p w d.bytes hty hidx hpres h0 hmps.1 hmps.2 hl
         hposW hlt rs
@@ -176,8 +176,8 @@ theorem block_packet_exact (coll : Collection) (mps : Nat) (s0 : Block.State)
       cases hlk : (Rom.layout coll).lookup ty idx with
       | none => exact hlk
       | some w => rw [hlk] at hok; simp at hok
-    obtain ⟨lat, hlat, h⟩ := Block.block_stall (blockOf coll mps) s0 ty idx l p hty hidx hnone h0 rs
-    exact ⟨lat, by omega, h⟩
+    obtain ⟨lat, hlat1, hlat, h⟩ := Block.block_stall (blockOf coll mps) s0 ty idx l p hty hidx hnone h0 rs
+    exact ⟨lat, hlat1, by omega, h⟩
 
 /-! ## Distributed (block-RAM-free) handler, with the repair of F6 -/
 
@@ -308,14 +308,14 @@ theorem stall_without_data_when_absent_block (coll : Collection) (mps : Nat) (s0
     (hm : mps = 8 ∨ mps = 16 ∨ mps = 32 ∨ mps = 64) (hpw : 2 ≤ (Rom.layout coll).maxLen)
     (hty : ty < 256) (hidx : idx < 256) (hl : l < 65536) (h0 : s0.fsm = .idle)
     (habs : descrBytes coll ty idx = none) :
-    (∃ lat, lat ≤ 4 ∧ Block.run (blockOf coll mps) s0 (Block.reqInputs (ty * 256 + idx) l p rs)
+    (∃ lat, 1 ≤ lat ∧ lat ≤ 4 ∧ Block.run (blockOf coll mps) s0 (Block.reqInputs (ty * 256 + idx) l p rs)
         = respTrace lat .stall rs)
     ∧ ∀ b ∈ Block.run (blockOf coll mps) s0 (Block.reqInputs (ty * 256 + idx) l p rs), b.valid = false := by
-  obtain ⟨lat, hlat, h⟩ := block_packet_exact coll mps s0 ty idx l p rs hwf hm hpw hty hidx hl h0
+  obtain ⟨lat, hlat1, hlat, h⟩ := block_packet_exact coll mps s0 ty idx l p rs hwf hm hpw hty hidx hl h0
     (by intro d hd; rw [habs] at hd; simp at hd)
   rw [habs] at h
   simp only [specResponse] at h
-  exact ⟨⟨lat, hlat, h⟩, by rw [h]; exact respTrace_stall_no_valid lat rs⟩
+  exact ⟨⟨lat, hlat1, hlat, h⟩, by rw [h]; exact respTrace_stall_no_valid lat rs⟩
 
 /-- **stall_without_data_when_absent**, distributed handler. -/
 theorem stall_without_data_when_absent_dist (coll : Collection) (mps : Nat) (s0 : Dist.State)
